@@ -45,7 +45,7 @@ Fixpoint final_expected (nexp : nat) (ms : list (Z * msg)) (succ : list (Z * Z *
   end.
 
 Record acase := {
-  ac_cfg : cfg; ac_def : Z; ac_over : list (Z * Z);
+  ac_cfg : cfg; ac_sd : shutdown; ac_def : Z; ac_over : list (Z * Z);
   ac_exps : list expectation; ac_msgs : list (Z * msg);
   ac_succ : list (Z * Z * Z); ac_errs : list (Z * Z); ac_reports : list report;
   ac_np : list (Z * Z * Z);   (* partitioner log: (message id, partition count offered, topic the instance was constructed for) *)
@@ -69,7 +69,7 @@ Fixpoint first_occ (seen : list Z) (l : list Z) : list Z :=
   end.
 
 Definition ok_async (a : acase) : bool :=
-  let h := async_history (ac_cfg a) (ac_exps a) (map snd (ac_msgs a)) in
+  let h := async_history_sd (ac_cfg a) (ac_sd a) (ac_exps a) (map snd (ac_msgs a)) in
   list_eqb z3_eqb (proj_succ h) (ac_succ a) && list_eqb z2_eqb (proj_errs h) (ac_errs a) &&
   list_eqb report_eqb (proj_reports h) (ac_reports a) &&
   list_eqb z3_eqb (np_expected (ac_def a) (ac_over a) (length (ac_exps a)) (ac_msgs a)) (ac_np a) &&
